@@ -248,19 +248,50 @@ func steerSignalGap(workers int, emit func(string)) {
 	}
 	defer e.close()
 	emit("reset")
-	a := make(chan struct{})
-	b := make(chan struct{})
-	h, ret1, _ := e.submit("a", "runWith.unlocked", func(int) { close(a) })
-	waitCh(h.arrived, "first submitter before Signal")
-	_, ret2, _ := e.submit("b", "", func(int) { close(b) })
-	waitCh(ret2, "second WithGroup")
-	waitCh(b, "callback b")
-	close(h.release)
-	waitCh(ret1, "first WithGroup")
-	waitCh(a, "callback a")
-	e.rec.add("h.quiescent", "", 2)
+	// one round per worker: each late Signal wakes one waiting worker although the queue is empty
+	// again; that worker must simply go back to waiting
+	for round := 0; round < workers; round++ {
+		a := make(chan struct{})
+		b := make(chan struct{})
+		h, ret1, _ := e.submit("a", "runWith.unlocked", func(int) { close(a) })
+		waitCh(h.arrived, "first submitter before Signal")
+		_, ret2, _ := e.submit("b", "", func(int) { close(b) })
+		waitCh(ret2, "second WithGroup")
+		waitCh(b, "callback b")
+		waitCh(a, "callback a")
+		from := e.numNotes()
+		close(h.release)
+		waitCh(ret1, "first WithGroup")
+		// the woken worker has looked at the empty queue once it waits again (or, wrongly, is gone)
+		deadline := time.Now().Add(200 * time.Millisecond)
+		for time.Now().Before(deadline) && !e.sawAfter(from, "w.wait", "w.exit") {
+			time.Sleep(100 * time.Microsecond)
+		}
+	}
+	// every worker is still there: a further callback runs
+	c := make(chan struct{})
+	e.submit("c", "", func(int) { close(c) })
+	select {
+	case <-c:
+	case <-time.After(2 * time.Second):
+	}
+	e.rec.add("h.quiescent", "", 2*workers+1)
 	e.shutdown()
 	flushNotes(e.rec, emit)
+}
+
+// sawAfter: has one of the points been noted at or after index from?
+func (e *steerEnv) sawAfter(from int, points ...string) bool {
+	e.rec.mu.Lock()
+	defer e.rec.mu.Unlock()
+	for i := from; i < len(e.rec.notes); i++ {
+		for _, p := range points {
+			if e.rec.notes[i].point == p {
+				return true
+			}
+		}
+	}
+	return false
 }
 
 // steerRestartStale: all workers are busy, a callback for another group is queued but never
